@@ -114,7 +114,7 @@ func main() {
 				}
 			})
 		})
-		dense, neigh := uint64(1<<20), uint64(1000)
+		dense, neigh := uint64(1<<22), uint64(4000)
 		if !r.Quick() {
 			dense, neigh = 1<<24, 20000
 		}
